@@ -34,6 +34,11 @@ type memConn struct {
 	failWriteAt int
 	// failFull: the failing write records its bytes and reports the full count together with the error
 	failFull bool
+	// eofWithData: the read that hands out the last bytes reports io.EOF with them (io.Reader allows it;
+	// net.Conn implementations report the end on a read of its own)
+	eofWithData bool
+	// failOnce: only the k-th Write fails; later ones succeed again (a write deadline that passed, a signal)
+	failOnce bool
 }
 
 func newMemConn() *memConn {
@@ -65,6 +70,9 @@ func (c *memConn) Read(p []byte) (int, error) {
 		}
 		copy(p, c.in[:n])
 		c.in = c.in[n:]
+		if c.eofWithData && c.ended && len(c.in) == 0 {
+			return n, io.EOF // io.Reader allows the last bytes and the end in one result
+		}
 		return n, nil
 	}
 	if c.closed {
@@ -96,7 +104,7 @@ func (c *memConn) write(p []byte) (int, error) {
 	if c.closed {
 		return 0, errors.New("use of closed connection")
 	}
-	if c.failWriteAt > 0 && c.writes+1 >= c.failWriteAt {
+	if c.failWriteAt > 0 && c.writes+1 >= c.failWriteAt && !(c.failOnce && c.writes+1 > c.failWriteAt) {
 		c.writes++
 		if c.failFull && c.writes == c.failWriteAt {
 			c.out = append(c.out, p...)
